@@ -185,6 +185,10 @@ func CheckCall(sc *Scenario, v *CallView, rs RuleSet, em int) []Violation {
 			if e.Kind == EvAlias && (e.C == 4 || e.C&8 != 0) {
 				continue
 			}
+			if e.Kind == EvAlias && e.C == 32 {
+				add("stale-injected-key-visible", "function", fmt.Sprintf("%s: rule %d called the function ofn although this request did not inject it", c, x.Rule))
+				continue
+			}
 			if e.Kind == EvAlias && e.C == 16 {
 				add("foreign-request-data", "api-entry", fmt.Sprintf("%s: rule %d found a value in the by-value api entry QA that is neither the constructor's nor assigned by this request", c, x.Rule))
 				continue
